@@ -122,6 +122,11 @@ func genFaultScn(rng *rand.Rand, maxN int, phase time.Duration) faultScn {
 		if after := a.At + time.Duration(1+rng.Intn(5))*time.Second; after < phase {
 			extra = append(extra, faultAction{At: after, Kind: "update", A: a.A})
 		}
+		// half of the veterans come back with exactly the configuration they crashed with (same metadata): what
+		// the peers still hold about them then matches their own announcement in everything but the incarnation
+		if rng.Intn(2) == 0 {
+			sc.Actions[i].P = 1
+		}
 	}
 	sc.Actions = append(sc.Actions, extra...)
 	sortActions(sc.Actions)
